@@ -133,7 +133,12 @@ class AllocPlugin:
                 self._use(ex, s, i, site, "written")
             vs = self._site_of(ex, i.ops[0], env)
             if vs is not None and env.get(("site", vs)) in ("live", "unchecked"):
-                env[("site", vs)] = "escaped"
+                holder = site if (site is not None and site >= 0 and site != vs) else None
+                if holder is not None and env.get(("site", holder)) in ("live", "unchecked"):
+                    # stored into another block this function owns: the pointer lives only as long as that block
+                    env[("held", vs)] = holder
+                else:
+                    env[("site", vs)] = "escaped"
             return None
         return None
 
@@ -159,6 +164,9 @@ class AllocPlugin:
             site = self._site_of(ex, t.ops[0], env)
             if site is not None and env.get(("site", site)) in LIVE_STATES:
                 env[("site", site)] = "escaped"
+        for k, holder in [(k, v) for k, v in env.items() if k[0] == "held"]:
+            if env.get(("site", holder)) != "freed" and env.get(("site", k[1])) in LIVE_STATES:
+                env[("site", k[1])] = "escaped"
         states = {k[1]: v for k, v in env.items() if k[0] == "site"}
         self.exit_states.append(states)
         for site, st in states.items():
@@ -190,8 +198,9 @@ def summarize_param(m, cf, idx, names, summaries):
     if "freed" in finals:
         return None
     if finals <= {"live"}:
-        at = cf.args[idx]["attrs"]
-        return "use" if "nocapture" in at else "escape"
+        # every store / return / call of the pointer was followed by the typestate engine itself (stores into blocks the
+        # callee frees are not escapes), so the block is still the caller's at every return
+        return "use"
     if finals <= {"live", "escaped"}:
         return "escape"
     return None
